@@ -912,7 +912,14 @@ class Elemwise(Blockwise):
         args = list(self.elemwise_args)
         if self.where is not True:
             args.extend([self.where, self.out])
-        return compute_meta(self._info[0], self.dtype, *args, **self.kwargs)
+        meta = compute_meta(self._info[0], self.dtype, *args, **self.kwargs)
+        if meta is None:
+            # compute_meta failed (the operand metas need not broadcast: a meta
+            # keeps length-1 axes, so ``out`` of meta shape (1, 0) meets a
+            # (0, 0) broadcast).  Fall back to an empty array of the known
+            # dtype like ``Blockwise._meta`` does, rather than no meta at all.
+            meta = meta_from_array(None, ndim=self.ndim, dtype=self.dtype)
+        return meta
 
     @property
     def elemwise_args(self):
